@@ -1,11 +1,11 @@
 (* C04 -- Cross-chain transactions are delivered and executed exactly once, in order.
    Property theorems only.  Model: Model/C04.v.  Lemmas: Proofs/C04_Queue.v (queue),
    Proofs/C04_Accept.v (block acceptance), Proofs/C04_Route.v (destination filters),
-   Proofs/C04_Hier.v (hand-down across region blocks).
+   Proofs/C04_Hier.v (hand-down across region blocks), Proofs/C04_Fetch.v (recovery of a missed bundle).
    Generated data of the implementation: Generated/C04Sites.v. *)
 From Coq Require Import List NArith Bool Permutation.
 From GQ Require Import Lib.Key Lib.SMap Lib.C04_BigEndian Lib.C04_Expr Model.C04
-  Proofs.C04_Queue Proofs.C04_Accept Proofs.C04_Route Proofs.C04_Hier Generated.C04Sites.
+  Proofs.C04_Queue Proofs.C04_Accept Proofs.C04_Route Proofs.C04_Hier Proofs.C04_Fetch Generated.C04Sites.
 Import ListNotations.
 Local Open Scope N_scope.
 
@@ -418,6 +418,78 @@ Theorem append_glue_as_modelled : src_append_glue = append_glue_model.
 Proof. vm_compute. reflexivity. Qed.
 Print Assumptions append_glue_as_modelled.
 
+
+(* ======================= (e) recovery of a missed bundle ======================= *)
+
+(* HYPOTHESIS of everything in (d): sub_rollup reads the node's store and nothing else.  Here it is a
+   theorem about the code as modelled with its recovery path (retry gate, question to the subordinate,
+   validated add): for EVERY answer of the subordinate, the result of a collection -- in the very call in
+   which the subordinate is asked too -- is the result of the pure walk over the store the node had when
+   the call began; a call that does not fail with "pending ETXs not found" changes nothing; one that does
+   changes the state by one gate step for a bundle the store does not hold.  (The statement the seeded
+   change C04_4 breaks: there the fetched bundle is used at once.) *)
+Theorem collect_reads_only_the_store : forall cm T answers st ctx b border,
+  snd (newly_confirmed_f cm T answers st ctx b border) = newly_confirmed (fs_world st) ctx b border
+  /\ (newly_confirmed (fs_world st) ctx b border <> RErrPending ->
+      fst (newly_confirmed_f cm T answers st ctx b border) = st)
+  /\ (newly_confirmed (fs_world st) ctx b border = RErrPending ->
+      exists key h, lookup_pending (fs_world st) h = None
+                    /\ fst (newly_confirmed_f cm T answers st ctx b border) = fetch cm T answers st key h).
+Proof. exact collect_f_answer. Qed.
+Print Assumptions collect_reads_only_the_store.
+
+Theorem collect_answer_independent_of_subordinate : forall cm T answers1 answers2 st ctx b border,
+  snd (newly_confirmed_f cm T answers1 st ctx b border) = snd (newly_confirmed_f cm T answers2 st ctx b border).
+Proof. exact collect_answer_independent. Qed.
+Print Assumptions collect_answer_independent_of_subordinate.
+
+(* the same for the bare CollectSubRollup: Some answer = concatenation of stored bundles, state untouched *)
+Theorem sub_rollup_with_fetch_reads_only_the_store : forall cm T answers st key m acc r,
+  sub_rollup (fs_world st) m = Some r -> sub_rollup_f cm T answers st key m acc = (st, Some (acc ++ r)).
+Proof. exact sub_rollup_f_some. Qed.
+Print Assumptions sub_rollup_with_fetch_reads_only_the_store.
+
+Theorem sub_rollup_with_fetch_failure : forall cm T answers st key m acc,
+  sub_rollup (fs_world st) m = None ->
+  exists h, In h m /\ lookup_pending (fs_world st) h = None
+            /\ sub_rollup_f cm T answers st key m acc = (fetch cm T answers st key h, None).
+Proof. exact sub_rollup_f_none. Qed.
+Print Assumptions sub_rollup_with_fetch_failure.
+
+(* for any history of calls, the subordinate answering anything and differently each time: the store
+   holds only bundles that pass the commitment check of their header, and no known entry ever changes
+   (so what was delivered on the strength of an entry stays delivered exactly once) *)
+Theorem recovery_keeps_store_validated : forall cm T ctx rs st,
+  store_validated cm (fs_world st) ->
+  store_validated cm (fs_world (fst (run_rounds cm T ctx st rs)))
+  /\ store_extends (fs_world st) (fs_world (fst (run_rounds cm T ctx st rs))).
+Proof. exact run_rounds_invariant. Qed.
+Print Assumptions recovery_keeps_store_validated.
+
+(* content committed by the header: on a validated store a sub rollup is, name by name, what the headers
+   of the manifest commit to; two nodes agree on it whatever each of them was sent *)
+Theorem validated_sub_rollup_is_committed_content : forall cm w, store_validated cm w -> forall m l,
+  sub_rollup w m = Some l -> (forall h, In h m -> is_genesis w h = false) ->
+  map retx_id l = concat (map (committed_of cm) m).
+Proof. exact validated_rollup_is_committed. Qed.
+Print Assumptions validated_sub_rollup_is_committed_content.
+
+Theorem validated_nodes_agree : forall cm w1 w2 m l1 l2, store_validated cm w1 -> store_validated cm w2 ->
+  sub_rollup w1 m = Some l1 -> sub_rollup w2 m = Some l2 ->
+  (forall h, In h m -> is_genesis w1 h = false /\ is_genesis w2 h = false) ->
+  map retx_id l1 = map retx_id l2.
+Proof. exact validated_stores_agree. Qed.
+Print Assumptions validated_nodes_agree.
+
+(* recovery works: once the retry counter of the block reached the threshold, a valid answer for a
+   missing entry is stored (and the next collection finds it) *)
+Theorem valid_answer_is_stored : forall cm T (answers : list (N * bundle)) st key h l r,
+  assoc (fs_retries st) key = Some r -> T <= r -> assoc answers h = Some (h, l) ->
+  bundle_valid cm (fs_world st) (h, l) = true -> lookup_pending (fs_world st) h = None ->
+  lookup_pending (fs_world (fetch cm T answers st key h)) h = Some l.
+Proof. exact fetch_valid_answer_stores. Qed.
+Print Assumptions valid_answer_is_stored.
+
 (* ======================= non-vacuity ======================= *)
 
 (* a history crossing the 255/256 key-length boundary, with a pop on empty in it *)
@@ -499,4 +571,28 @@ Proof.
   - eexists; vm_compute; reflexivity.
   - repeat constructor; vm_compute; discriminate.
   - repeat constructor; cbn; intuition discriminate.
+Qed.
+
+(* the scenario of the seeded change C04_4 in the prime node: prime block 11 (slice [0;1]) refers to region
+   block 201, whose header commits to ETX 2 (to region 1) only; prime never received that rollup.  The
+   region answers with its whole sub rollup [1 (zone [0;0] -> zone [0;1], intra-region); 2]: refused, the
+   collection of block 11 fails in all 30 rounds and nothing is stored.  With the valid answer [2] the
+   first eleven rounds count, the twelfth asks and stores, the thirteenth succeeds -- and hands NOTHING to
+   region 0 (ETX 2 is for region 1; ETX 1 never reaches prime). *)
+Example recovery_nonvacuous :
+  let cm := [(201, [2])] in
+  let st0 := mkFS (mkRW [1] [mkRB 1 0 [] 0 0 [] []; mkRB 11 1 [0;1] 0 4 [201] []] [(1, [])]) [] in
+  let unfiltered := [(201, (201, [(1,1,0); (2,16,0)]))] in
+  let valid := [(201, (201, [(2,16,0)]))] in
+  let run a n := run_rounds cm 10 PRIME_CTX st0 (repeat (a, (11, 0)) n) in
+  store_validated cm (fs_world st0) /\
+  snd (run unfiltered 30%nat) = repeat (2, []) 30 /\ lookup_pending (fs_world (fst (run unfiltered 30%nat))) 201 = None /\
+  snd (run valid 13%nat) = repeat (2, []) 12 ++ [(0, [])] /\
+  lookup_pending (fs_world (fst (run valid 12%nat))) 201 = Some [(2,16,0)] /\
+  lookup_pending (fs_world (fst (run valid 11%nat))) 201 = None.
+Proof.
+  cbv zeta. split; [|vm_compute; repeat split].
+  intros h l H. unfold lookup_pending in H. cbn [rw_pending fs_world find fst] in H.
+  destruct (1 =? h) eqn:E; cbn in H; [|discriminate].
+  apply N.eqb_eq in E. subst h. injection H as <-. vm_compute. reflexivity.
 Qed.
